@@ -51,6 +51,11 @@ CHECKS = {
          "Each service of the C01 quantifier runs in its own child behind the real dispatcher; after a warm-up census, N generated connections (plus FTP passive requests never connected to and six silent connections) are followed by a 40 s grace and a census, then N more, grace, census. A leak is an excess that is positive after N and larger after 2N; silent connections must be closed by the server within 95 s; idle CPU must stay below half a core.",
          "Bounded time is checked against generous fixed bounds (40 s after client close, 95 s of silence). Goroutines are attributed by stack signature restricted to honeytrap frames.",
          "DESIGN.md §5 C09"),
+ "C04": ("exploration",
+         "runtime monitoring: per-connection event recorder behind the real dispatcher; offline oracle = ordered list of command events equals the grammar generator's command list under every delivery (whole, every single cut point, multi-cut, 1-byte dribble; pipelined and lock-step; datagrams sequential and concurrent) and is identical across deliveries",
+         "For 18 protocol variants, grammar-generated command sequences are delivered on a fresh connection per delivery through server.Run; the events attributed to the connection (by unique source address) must list each command exactly once, in order, with its decoded key fields, for every segmentation.",
+         "Key fields compared per protocol (command line, method+url, message-id+request-type, dns id, ...); payload previews are not compared. Missing events are declared only after a 2 s wait.",
+         "DESIGN.md §5 C04"),
 }
 
 NOT_YET = {
